@@ -302,6 +302,22 @@ fn strip_hash(sym: &str) -> String {
     sym.to_string()
 }
 
+/// "a::B<x::Y>::f" -> "a::B::f": drop generic arguments so that one source function has one name
+fn strip_generics(sym: &str) -> String {
+    let mut out = String::with_capacity(sym.len());
+    let mut depth = 0usize;
+    for c in sym.chars() {
+        match c {
+            '<' => depth += 1,
+            '>' => depth = depth.saturating_sub(1),
+            _ if depth == 0 => out.push(c),
+            _ => {}
+        }
+    }
+    // "<T as Trait>::f" style prefixes leave a leading "::"
+    out.trim_start_matches("::").replace("::::", "::")
+}
+
 fn innermost_library_frame() -> (String, bool) {
     let bt = std::backtrace::Backtrace::force_capture();
     let text = format!("{}", bt);
@@ -313,12 +329,21 @@ fn innermost_library_frame() -> (String, bool) {
             let (num, rest) = t.split_at(pos);
             if !num.is_empty() && num.chars().all(|c| c.is_ascii_digit()) {
                 let sym = strip_hash(rest[2..].trim());
-                let sym = sym.trim_start_matches('<').to_string();
                 if sym.contains("datasketches::") && !sym.contains("dsverif::") {
-                    // normalise "<datasketches::a::B as core::..>::f" a little
-                    let start = sym.find("datasketches::").unwrap_or(0);
-                    let mut s = sym[start..].to_string();
-                    s = s.replace("::{{closure}}", "").replace('<', "").replace('>', "");
+                    // "<datasketches::a::B<T>>::f" / "<datasketches::a::B as core::..>::f" -> "datasketches::a::B::f"
+                    let mut s = if sym.starts_with('<') {
+                        // keep the self type, drop " as Trait"
+                        let inner_end = sym.rfind(">::").unwrap_or(sym.len());
+                        let inner = &sym[1..inner_end.min(sym.len())];
+                        let self_ty = inner.split(" as ").next().unwrap_or(inner);
+                        format!("{}{}", self_ty, &sym[inner_end.min(sym.len())..].trim_start_matches('>'))
+                    } else {
+                        sym.clone()
+                    };
+                    if let Some(start) = s.find("datasketches::") {
+                        s = s[start..].to_string();
+                    }
+                    s = strip_generics(&s.replace("::{{closure}}", ""));
                     return (s, true);
                 }
                 if sym.contains("dsverif::") && first_harness.is_none() {
@@ -344,13 +369,19 @@ pub fn install_panic_hook() {
             Some(l) => (l.file().to_string(), l.line()),
             None => ("<unknown>".to_string(), 0),
         };
+        // A panic raised at a location inside the library always comes from the same function, so the
+        // (expensive) symbolised backtrace is taken once per location. A panic raised inside std (capacity
+        // overflow, slice index, the allocation-error hook) can come from any caller: no caching.
         let key = (file.clone(), line);
-        let cached = FUNC_CACHE.with(|c| c.borrow().get(&key).cloned());
+        let cacheable = file.contains("datasketches/src");
+        let cached = if cacheable { FUNC_CACHE.with(|c| c.borrow().get(&key).cloned()) } else { None };
         let (func, lib_frame) = match cached {
             Some(v) => v,
             None => {
                 let v = innermost_library_frame();
-                FUNC_CACHE.with(|c| c.borrow_mut().insert(key, v.clone()));
+                if cacheable {
+                    FUNC_CACHE.with(|c| c.borrow_mut().insert(key, v.clone()));
+                }
                 v
             }
         };
